@@ -222,7 +222,7 @@ class Roots:
                 # opt.map(f)  ==  match opt { None => None, Some(x) => Some(f(x)) }
                 cf = self.P.fn(v[4][1][2])
                 if cf is not None and cf.body is not None:
-                    ex = [x for x in exit_sites(self.P, cf)]
+                    ex = [x for x in exit_sites(self.P, cf) if x[2] != "err"]     # `?` inside the closure: errors leave through transpose()?
                     if len(ex) == 1:
                         payload = proj(proj(v[4][0], ("v", "Some")), ("f", 0))
                         rv = subst_params(ex[0][3], {("param", cf.path, 1): payload})
@@ -230,6 +230,19 @@ class Roots:
                         none = ("agg", "adt", "std::option::Option::None", ())
                         return self.with_captures(v[4][1]).roots(phi([none, some]), path) if True else set()
             if cs.endswith("option::Option::transpose") and len(v[4]) == 1:
+                inner = v[4][0]
+                if inner[0] == "call" and isinstance(inner[3], str) and generic_path(inner[3]).endswith("option::Option::map") and len(inner[4]) == 2 \
+                        and inner[4][1][0] == "agg" and inner[4][1][1] == "closure":
+                    # opt.map(|x| -> Result<..> { Ok(f(x)) }).transpose()  ==  Ok(match opt { None => None, Some(x) => Some(f(x)) })
+                    cf = self.P.fn(inner[4][1][2])
+                    ex = [x for x in exit_sites(self.P, cf) if x[2] != "err"] if cf is not None and cf.body is not None else []
+                    if len(ex) == 1 and ex[0][3][0] == "agg" and str(ex[0][3][2]).endswith("Result::Ok"):
+                        payload = proj(proj(inner[4][0], ("v", "Some")), ("f", 0))
+                        rv = subst_params(ex[0][3][3][0][1], {("param", cf.path, 1): payload})
+                        some = ("agg", "adt", "std::option::Option::Some", ((0, rv),))
+                        none = ("agg", "adt", "std::option::Option::None", ())
+                        okv = ("agg", "adt", "std::result::Result::Ok", ((0, phi([none, some])),))
+                        return self.with_captures(inner[4][1]).roots(okv, path)
                 return self.roots(v[4][0], path)
             if cs.endswith("option::Option::unwrap_or") and len(v[4]) == 2:
                 return {"or(%s;%s)%s" % ("|".join(sorted(self.roots(v[4][0], (("v", "Some"), ("f", 0))))),
@@ -444,7 +457,7 @@ class Guard:
         return (self.b, self.true_t if truth else self.false_t)
 
 
-def bool_guards(P, fn):
+def bool_guards(P, fn, helpers=True):
     """All bool-switch guards of fn as Guard objects (cond already normalised; `negated` folded into targets)."""
     body = fn.body
     out = []
@@ -462,6 +475,74 @@ def bool_guards(P, fn):
         if neg:
             tt, ft = ft, tt
         out.append(Guard(fn, b, c, tt, ft))
+    if helpers:
+        out += helper_guards(P, fn)
+    return out
+
+
+_CHECK_MEMO = {}
+
+
+def check_helper(P, g):
+    """g is a *check helper*: a loop-free, effect-free workspace function returning Result<(), E> with exactly one bool
+    guard, one of whose edges only errs while the other only succeeds.  Returns (cond, errs_when_true) or None."""
+    key = (id(P), g.path)
+    if key in _CHECK_MEMO:
+        return _CHECK_MEMO[key]
+    _CHECK_MEMO[key] = None
+    if g.body is None or g.derived or g.kind not in ("fn", "assoc_fn") or g.impl_trait is not None or len(g.body.blocks) > 40:
+        return None
+    if not re.search(r"-> std::result::Result<\(\), [^>]+>$", g.sig or ""):
+        return None
+    if g.body.back_edges() or not _effect_free(P, g, 0):
+        return None
+    gs = bool_guards(P, g, helpers=False)
+    if len(gs) != 1:
+        return None
+    # no other branching (besides the one guard)
+    for b, blk in enumerate(g.body.blocks):
+        if not blk["cleanup"] and blk["term"]["k"] == "switch" and b != gs[0].b:
+            return None
+    gd = gs[0]
+    exits = exit_sites(P, g)
+    res = None
+    for truth in (True, False):
+        reach_f = g.body.reachable_from(gd.edge(truth)[1])
+        reach_p = g.body.reachable_from(gd.edge(not truth)[1])
+        f_cls = {cls for (b, i, cls, v) in exits if b in reach_f}
+        p_cls = {cls for (b, i, cls, v) in exits if b in reach_p}
+        if f_cls == {"err"} and p_cls == {"ok"}:
+            res = (gd.cond, truth)
+    _CHECK_MEMO[key] = res
+    return res
+
+
+def helper_guards(P, fn):
+    """Guards expressed as `check(args)?`: the helper's single condition, with its parameters replaced by the call's
+    arguments, attached to the propagation switch of the call (Err edge = the helper rejects)."""
+    out = []
+    for b, p, fr, t in P.calls(fn):
+        if not p:
+            continue
+        g = P.fn(p) or P.fn(generic_path(p))
+        if g is None or g.path == fn.path or not g.path.startswith(("halo_pair::", "halo_factory::", "halo_router::", "haloswap::")):
+            continue
+        ch = check_helper(P, g)
+        if ch is None:
+            continue
+        pg = propagated(P, fn, b)
+        if pg is None:
+            continue
+        s_, cont, brk = pg
+        cond, errs_when_true = ch
+        cv = P.val_call(fn, fn.body, b)
+        mapping = {("param", g.path, i): a for i, a in enumerate(cv[4])}
+        if cond[0] == "cmp":
+            cond2 = ("cmp", cond[1], tuple(subst_params(a, mapping) for a in cond[2]), False, b, cond[5] if len(cond) > 5 else None)
+        else:
+            continue
+        tt, ft = (brk[1], cont[1]) if errs_when_true else (cont[1], brk[1])
+        out.append(Guard(fn, s_, cond2, tt, ft))
     return out
 
 
@@ -517,15 +598,39 @@ def adt_short(path):
 
 
 def message_sites(P):
-    """[(fn, bb, idx, adt_short, variant, value, span)] for every message aggregate in production code."""
+    """[(fn, bb, idx, adt, variant, value, span)] for every message aggregate in production code.  A message built inside a
+    straight-line private constructor helper (ctor_helper) is reported once per production call site of the helper, in the
+    caller's context (parameters replaced by the call's arguments)."""
     out = []
+
+    def emit(fn, b, i, adt, var, v, span, depth):
+        if depth < 3 and fn.kind != "closure" and ctor_helper(P, fn):
+            cs = [(c, cb) for c, cb in P.callers(fn.path) if "::tests::" not in c.path and "mock_querier" not in c.path]
+            for c, cb in cs:
+                cv = P.val_call(c, c.body, cb)
+                v2 = subst_params(v, {("param", fn.path, k): a for k, a in enumerate(cv[4])})
+                emit(c, cb, -1, adt, var, v2, c.body.blocks[cb]["term"]["span"], depth + 1)
+            return
+        out.append((fn, b, i, adt, var, v, span))
     for fn in P.prod_fns():
         for b, i, st in agg_sites(fn, lambda rv: MSG_ADT.match(rv["adt"])):
             rv = st["rv"]
             if adt_short(rv["adt"]) == "ReplyOn":
                 continue
             v = P.val_rvalue(fn, fn.body, (b, i), rv)
-            out.append((fn, b, i, rv["adt"], rv["variant"], v, st["span"]))
+            emit(fn, b, i, rv["adt"], rv["variant"], v, st["span"], 0)
+    return out
+
+
+def raw_message_sites(P, adt_variant=None):
+    """Message aggregates at their real construction sites (no lifting of constructor helpers)."""
+    out = []
+    for fn in P.prod_fns():
+        for b, i, st in agg_sites(fn, lambda rv: MSG_ADT.match(rv["adt"])):
+            rv = st["rv"]
+            if adt_short(rv["adt"]) == "ReplyOn" or (adt_variant is not None and rv["adt"] + "::" + rv["variant"] != adt_variant):
+                continue
+            out.append((fn, b, i, rv["adt"], rv["variant"], P.val_rvalue(fn, fn.body, (b, i), rv), st["span"]))
     return out
 
 
@@ -1021,6 +1126,51 @@ def pure_helper(P, f, depth=0):
     return ok
 
 
+_CTOR_MEMO = {}
+
+
+def ctor_helper(P, f):
+    """f is a straight-line private message constructor: a private, loop-free, storage-free workspace function with exactly
+    one success exit whose only branches are `?` propagations and which builds at least one message aggregate.  Such a
+    helper is inlined into its callers (provenance and message inventory see the message at each call site); helpers
+    that *choose* between messages (the transfer constructor, the hop builder) are not eligible and keep their own sites."""
+    key = (id(P), f.path)
+    if key in _CTOR_MEMO:
+        return _CTOR_MEMO[key]
+    _CTOR_MEMO[key] = False
+    ok = (f.body is not None and not f.derived and f.kind in ("fn", "assoc_fn") and f.impl_trait is None and
+          not (f.j.get("vis") or "Public").startswith("Public") and len(f.body.blocks) <= 80 and
+          f.crate in ("halo_pair", "halo_factory", "halo_router", "haloswap") and "::tests::" not in f.path and "mock_querier" not in f.path)
+    if ok and f.body.back_edges():
+        ok = False
+    has_msg = False
+    if ok:
+        for b, blk in enumerate(f.body.blocks):
+            if blk["cleanup"]:
+                continue
+            for st in blk["stmts"]:
+                if st["k"] == "assign" and st["rv"]["k"] == "agg" and st["rv"].get("agg") == "adt" and MSG_ADT.match(st["rv"]["adt"]):
+                    has_msg = True
+            t_ = blk["term"]
+            if t_["k"] == "call":
+                p, fr = callee_of(t_)
+                if p and (_STORE_OR_MSG.search(generic_path(p)) or _STORE_READ.match(generic_path(p))):
+                    ok = False
+                g = (P.fn(p) or P.fn(generic_path(p))) if p else None
+                if g is not None and g.body is not None and g.path != f.path and not g.derived and g.crate in ("halo_pair", "halo_factory", "halo_router", "haloswap") \
+                        and not pure_helper(P, g):
+                    ok = False
+            if t_["k"] == "switch":
+                c = switch_cond(P, f, b)
+                if not (c and c[0] == "discr" and c[1][0] == "call" and is_try_branch(c[1][3])):
+                    ok = False
+    if ok and has_msg:
+        oks = [x for x in exit_sites(P, f) if x[2] != "err"]
+        ok = len(oks) == 1
+    _CTOR_MEMO[key] = bool(ok and has_msg)
+    return _CTOR_MEMO[key]
+
+
 def _effect_free(P, g, depth):
     for b, blk in enumerate(g.body.blocks):
         if blk["cleanup"]:
@@ -1041,7 +1191,7 @@ def inline_call(P, v):
     if v[0] != "call" or not isinstance(v[3], str):
         return None
     f = P.fn(v[3]) or P.fn(generic_path(v[3]))
-    if f is None or not pure_helper(P, f):
+    if f is None or not (pure_helper(P, f) or ctor_helper(P, f)):
         return None
     vals = []
     for (b, i, cls, rv) in exit_sites(P, f):
@@ -1079,6 +1229,47 @@ def inline_helpers(P, v, depth=0):
     if k == "upd":
         return ("upd", inline_helpers(P, v[1], depth), v[2], inline_helpers(P, v[3], depth))
     return v
+
+
+def unfold_combinators(P, v, depth=0):
+    """Value-level rewriting of Option combinators applied to closures, so that walk()-based rules see through them:
+       opt.map(|x| f(x))                          ->  phi[None, Some(f(opt~Some.0))]
+       opt.map(|x| -> Result { Ok(f(x)) }).transpose()  ->  Ok(phi[None, Some(f(opt~Some.0))])   (errors leave through `?`)"""
+    if depth > 4:
+        return v
+    if v[0] == "proj" and v[2] in (("f", 0), ("f", "0")) and v[1][0] == "proj" and v[1][2] == ("v", "Continue") and v[1][1][0] == "call" and is_try_branch(v[1][1][3]):
+        return unfold_combinators(P, v[1][1], depth + 1)        # (branch(x) as Continue).0  ==  the Ok payload of x
+    if v[0] != "call" or not isinstance(v[3], str):
+        return v
+    g = generic_path(v[3])
+    if is_try_branch(v[3]) and v[4]:
+        inner = unfold_combinators(P, v[4][0], depth + 1)
+        if inner[0] == "agg" and str(inner[2]).endswith("Result::Ok"):
+            return inner[3][0][1]
+        return v
+
+    def mapped(mv, peel_ok):
+        if not (mv[0] == "call" and isinstance(mv[3], str) and generic_path(mv[3]).endswith("option::Option::map") and len(mv[4]) == 2
+                and mv[4][1][0] == "agg" and mv[4][1][1] == "closure"):
+            return None
+        cf = P.fn(mv[4][1][2])
+        ex = [x for x in exit_sites(P, cf) if x[2] != "err"] if cf is not None and cf.body is not None else []
+        if len(ex) != 1:
+            return None
+        rv = ex[0][3]
+        if peel_ok:
+            if not (rv[0] == "agg" and str(rv[2]).endswith("Result::Ok")):
+                return None
+            rv = rv[3][0][1]
+        payload = proj(proj(mv[4][0], ("v", "Some")), ("f", 0))
+        rv = subst_params(rv, {("param", cf.path, 1): payload})
+        return phi([("agg", "adt", "std::option::Option::None", ()), ("agg", "adt", "std::option::Option::Some", ((0, rv),))])
+    if g.endswith("option::Option::transpose") and len(v[4]) == 1:
+        m = mapped(v[4][0], True)
+        if m is not None:
+            return ("agg", "adt", "std::result::Result::Ok", ((0, m),))
+    m = mapped(v, False)
+    return m if m is not None else v
 
 
 # ---------------------------------------------------------------------------------------
